@@ -144,3 +144,27 @@ func M_strings_Count(s, sub string) int {
 		s = s[i+len(sub):]
 	}
 }
+
+// M_regexp_SplitSpaces models (*regexp.Regexp).Split(s, -1) for the literal pattern " +".
+func M_regexp_SplitSpaces(s string) []string {
+	if len(s) == 0 {
+		return []string{""}
+	}
+	out := []string{}
+	beg := 0
+	i := 0
+	for i < len(s) {
+		if s[i] == ' ' {
+			j := i
+			for j < len(s) && s[j] == ' ' {
+				j++
+			}
+			out = append(out, s[beg:i])
+			beg = j
+			i = j
+		} else {
+			i++
+		}
+	}
+	return append(out, s[beg:])
+}
